@@ -5,11 +5,6 @@ def g1Mul (a : CurvePoint) (k : Int) : CurvePoint := a.mul k
 def g2Mul (a : TwistPoint) (k : Int) : TwistPoint := a.mul k
 def gtExp (a : GFp12) (k : Int) : GFp12 := a.exp k
 
-def gtUnmarshal (m : Bytes) : Option GFp12 :=
-  if m.length ≠ 384 then none else
-  let c (i : Nat) : Int := natOfBE ((m.drop (32 * i)).take 32)
-  some ⟨⟨⟨c 0, c 1⟩, ⟨c 2, c 3⟩, ⟨c 4, c 5⟩⟩, ⟨⟨c 6, c 7⟩, ⟨c 8, c 9⟩, ⟨c 10, c 11⟩⟩⟩
-
 def showOpt (f : α → Bytes) : Option α → String
   | none => "reject mut=-"
   | some c => "ok " ++ toHex (f c) ++ " mut=-"
